@@ -25,6 +25,7 @@ REQUIRED_COVER = [
     "three_levels",
     "three_children_at_branchpoint",
     "parent_first_mention_unsorted",
+    "single_parameter_edit_after_simulation",
     "net_cells_of_different_depth",
     "net_ends_in_point_cell",
     "accepted:jaxley.stone:bwd_euler",
@@ -92,7 +93,7 @@ def _config(tier):
     return {"valuations": [0, 1, 2, 3], "dts": [0.025, 1.0, 1e3, 1e9]}
 
 
-LEAN = {"valuations": [1], "dts": [0.025, 1e9], "schemes": ["bwd_euler", "crank_nicolson"]}
+LEAN = {"valuations": [1], "dts": [0.025, 1e9], "schemes": ["bwd_euler", "crank_nicolson"], "single_param_edits": False}
 
 
 def _is_small(it):
@@ -114,7 +115,15 @@ def explore(ctx):
     ctx.note("bound", "quick: cells <=4 branches ncomp{1,2} + <=3 branches ncomp{1,2,3} + all 5/6-branch parent vectors with unsorted "
                       "first-mention order, network pairs; thorough: <=5 branches ncomp{1,2,3} + 6 branches ncomp{1,2}, network triples "
                       "(full configuration product up to 4 branches / pairs, lean configuration beyond)")
-    ctx.map("work", [dict(it, cfg=(cfg if (ctx.tier == "quick" or _is_small(it)) else LEAN)) for it in items])
+    def cfg_of(it):
+        if ctx.tier != "quick":
+            return cfg if _is_small(it) else LEAN
+        if it["kind"] == "cell" and len(it["parents"]) >= 4:
+            # quick: the many 4-6 branch cells get one generic valuation, implicit schemes only (fwd_euler refuses branched cells)
+            return {"valuations": [1], "dts": cfg["dts"], "schemes": ["bwd_euler", "crank_nicolson"], "edit_backends": ["jaxley.stone"]}
+        return cfg
+
+    ctx.map("work", [dict(it, cfg=cfg_of(it)) for it in items])
     # assumption monitor on one representative per shape class (reported, never part of the verdict)
     reps = [{"kind": "branch", "ncomp": 3}, {"kind": "cell", "parents": [-1, 0, 0, 1], "ncomps": [1, 1, 2, 1]},
             {"kind": "net", "cells": [CATALOGUE[5], CATALOGUE[5]]}]
@@ -268,8 +277,69 @@ def work(item):
                         }
                         wit = {"desc": desc, "valuation": vid, "dt": dt, "scheme": scheme, "backend": backend}
                         out["violations"].append({"sig": sig, "witness": wit, "msg": f"max_err={info['max_err']}"})
+    # single-parameter edits on the already simulated module (derived quantities such as axial conductances must follow every
+    # one of them): change ONE of capacitance / radius / length / axial_resistivity on the same instance and step again
+    if cfg.get("single_param_edits", True):
+        val = dict(vals.valuation(n, cfg["valuations"][-1]))
+        other = vals.valuation(n, 7)
+        for key in ("capacitance", "radius", "length", "axial_resistivity"):
+            val[key] = np.where(np.arange(n) % 2 == 0, other[key], val[key]) if n > 1 else other[key]
+            module.set(key, np.asarray(val[key]))
+            for backend in cfg.get("edit_backends", ("jaxley.stone", "jax.sparse")):
+                out["evals"] += 1
+                status, info = _check_with_val(desc, val, 0.025, "bwd_euler", backend, module)
+                if status == "refused":
+                    out["refusals"].append(f"{backend}:bwd_euler:{desc['kind']}:{info}")
+                elif status == "ok":
+                    out["cover"].append("single_parameter_edit_after_simulation")
+                else:
+                    sig = {"rule": info["rule"], "backend": backend if backend == "jax.sparse" else "jaxley.stone/thomas", "scheme": "bwd_euler",
+                           "kind": desc["kind"], "class": "after_editing_only_" + key}
+                    wit = {"desc": desc, "valuation": cfg["valuations"][-1], "dt": 0.025, "scheme": "bwd_euler", "backend": backend,
+                           "edit_sequence_up_to": key}
+                    out["violations"].append({"sig": sig, "witness": wit, "msg": f"max_err={info['max_err']}"})
     out["sample"] = {"desc": desc, "valuations": cfg["valuations"], "dts": cfg["dts"]}
     return out
+
+
+def _check_with_val(desc, val, dt, scheme, backend, module):
+    """Like check_one but with an explicit valuation dict already applied to `module`."""
+    parents, ncomps = build.forest_of_desc(desc)
+    n = int(sum(ncomps))
+    stim = _stim(n, val)
+    ext = {"i": np.asarray([s[1] for s in stim])}
+    inds = {"i": np.asarray([s[0] for s in stim])}
+    try:
+        vs, _ = build.eager_step(module, scheme, backend, dt, ext, inds, nsteps=1)
+    except Exception as e:
+        return "refused", f"{type(e).__name__}"
+    got = vs[1]
+    ref = refphys.passive_step(scheme, parents, ncomps, val, val["v"], dt, stim)
+    scale = 1.0 + float(np.max(np.abs(ref)))
+    err = float(np.max(np.abs(got - ref))) if np.all(np.isfinite(got)) else float("inf")
+    if err > 1e-7 * scale:
+        return "violation", {"rule": "matches_reference", "max_err": err}
+    return "ok", {}
+
+
+def _replay_edit_sequence(w):
+    """Replay a single-parameter-edit witness: simulate with the base valuation first, then apply the edits in order."""
+    desc = w["desc"]
+    parents, ncomps = build.forest_of_desc(desc)
+    n = int(sum(ncomps))
+    val = dict(vals.valuation(n, w["valuation"]))
+    module = build.module_of(desc)
+    build.apply_passive_valuation(module, val)
+    _check_with_val(desc, val, 0.025, "bwd_euler", w["backend"], module)
+    other = vals.valuation(n, 7)
+    status, info = "ok", {}
+    for key in ("capacitance", "radius", "length", "axial_resistivity"):
+        val[key] = np.where(np.arange(n) % 2 == 0, other[key], val[key]) if n > 1 else other[key]
+        module.set(key, np.asarray(val[key]))
+        status, info = _check_with_val(desc, val, 0.025, "bwd_euler", w["backend"], module)
+        if key == w["edit_sequence_up_to"]:
+            break
+    return status, info, "after_editing_only_" + w["edit_sequence_up_to"]
 
 
 def _classify(desc, parents, ncomps):
@@ -293,6 +363,12 @@ def _classify(desc, parents, ncomps):
 
 
 def replay(w):
+    if w.get("edit_sequence_up_to"):
+        status, info, cls = _replay_edit_sequence(w)
+        if status != "violation":
+            return []
+        return [{"sig": {"rule": info["rule"], "backend": w["backend"] if w["backend"] == "jax.sparse" else "jaxley.stone/thomas",
+                         "scheme": "bwd_euler", "kind": w["desc"]["kind"], "class": cls}, "witness": w, "msg": f"max_err={info['max_err']}"}]
     status, info = check_one(w["desc"], w["valuation"], w["dt"], w["scheme"], w["backend"])
     if status != "violation":
         return []
